@@ -9,6 +9,7 @@ import z3
 from .values import (SF, UNDEF, Unsupported, OutsideModel, MIN_INT, is_sym, conc_bool, b_and, b_or, b_not, ite,
                      isnan, sym_abs, to_z3_bool)
 from .runtime import current, GuardedSeq, RTProxy
+from .values import to_real as to_real_
 from .symarray import A, SymLen, coerce, fdiv, fsqrt
 from . import ifconv
 
@@ -821,7 +822,27 @@ class FakeSeries(_S):
     def __truediv__(self, o): return self._bin(o, lambda a, b: a / b)
     def __rtruediv__(self, o): return self._bin(o, lambda a, b: b / a)
     def __pow__(self, k): return FakeSeries(self.arr ** k, self.index, name=self.name)
-    def __floordiv__(self, o): return self._bin(o, lambda a, b: a // b)
+    def __floordiv__(self, o):
+        """pandas: integer // integer with a zero divisor gives float inf / NaN (0 // 0 = NaN); otherwise the floor quotient.
+        A symbolic divisor is a small count: the quotient is a case split over its possible values (division by constants only)."""
+        oa = o.arr if isinstance(o, FakeSeries) else o
+        if isinstance(oa, A) and oa.dtype.kind in "iu" and self.arr.dtype.kind in "iu" and any(is_sym(c) for c in oa.cells):
+            from .values import int_floordiv
+            bound = 16
+            cells = []
+            for a, b in zip(self.arr.cells, oa.cells):
+                if not is_sym(b):
+                    cells.append(SF.of(int_floordiv(a, int(b))) if int(b) > 0 else (_ for _ in ()).throw(OutsideModel("floor division by a non-positive constant")))
+                    continue
+                current().check("small_divisor", z3.And(b >= 0, b <= bound))
+                q = z3.IntVal(0)
+                for k in range(bound, 0, -1):
+                    q = z3.If(b == k, int_floordiv(a, k), q)
+                zero = b == 0
+                a_zero = (a == 0) if is_sym(a) else (a == 0)
+                cells.append(SF(b_and(zero, a_zero), to_real_(q), b_and(zero, b_not(a_zero), a > 0), b_and(zero, b_not(a_zero), a < 0)))
+            return FakeSeries(A(cells, "float64"), self.index, name=self.name)
+        return self._bin(o, lambda a, b: a // b)
     def __gt__(self, o): return self._bin(o, lambda a, b: a > b)
     def __ge__(self, o): return self._bin(o, lambda a, b: a >= b)
     def __lt__(self, o): return self._bin(o, lambda a, b: a < b)
